@@ -31,7 +31,7 @@ def one(name):
             return name, pid, {"_apply": ap.stderr.decode()[:200]}
         for sd in seeds:
             # a private copy of the evidence dir is not needed: evidence files are restored from git at the end
-            p = subprocess.run(["python3", "tools/check.py", pid, "--seed", str(sd)], cwd=V, env=dict(os.environ, VERIF_REPO=r),
+            p = subprocess.run(["python3", "tools/check.py", pid, "--seed", str(sd)], cwd=V, env=dict(os.environ, VERIF_REPO=r, VERIF_EVIDENCE=os.path.join(os.path.dirname(r), "evidence"), VERIF_REPLAYS=os.path.join(V, "replays")),
                                stdout=subprocess.PIPE, stderr=subprocess.STDOUT)
             out = p.stdout.decode(errors="replace")
             v = [l for l in out.splitlines() if l.startswith("VIOLATION")]
